@@ -22,7 +22,11 @@ ID = "C10"
 LEAN_MODULE = "LiquidVerif.Props.C10"
 TRANSLATE = False
 RULE = (
-    "streams: spaces (all 0x110000 code points: str.isspace, regex \\s and str.strip against the model's whitespace "
+    "streams: scan (ARBITRARY strings, mostly malformed: every string of up to 3/4 atoms over two 10-atom alphabets of "
+    "delimiters, hyphens, blanks, keywords, plus random concatenations of ~70 markup fragments, default / template_comments / "
+    "seven custom delimiter sets: the compiled regex's finditer against the model's hand-written string scanner `scan`, and the "
+    "real token list against tokenize(scan) incl. the end-of-file errors), delims (random piece lists under seven custom "
+    "non-colliding delimiter sets, all four levels), spaces (all 0x110000 code points: str.isspace, regex \\s and str.strip against the model's whitespace "
     "table; exhaustive), strip (str.lstrip/rstrip against the model on whitespace-rich strings), triple (every markup "
     "kind — output, assign, echo, inline comment, liquid, raw, doc, block comment, shorthand comment, padded and "
     "unpadded — with every combination of its 2 or 4 whitespace-control markers, between every pair of text fragments "
@@ -32,14 +36,15 @@ RULE = (
     "between them; exhaustive), random (piece lists of 1..14 pieces: random paddings incl. unicode whitespace, nested "
     "block comments containing markup, raw bodies containing markup, markup-like text). Every case is observed at four "
     "levels, all compared with the model: `finditer` of the compiled rules against matchesOf (match), the real token list against tokenize (tokens), "
-    "the parsed node list (classes and retained text) against parse (nodes), the rendered output against the model and against the direct specification spec_render (render). Non-trivial: "
+    "the parsed node list (classes and retained text) against parse (nodes), the rendered output — render() and render_async(), which must agree — against the model and against the direct specification spec_render (render). Non-trivial: "
     "some text piece next to markup has whitespace on the facing edge (so the marker decides what is output), or the "
     "case contains a raw / doc / comment piece."
 )
 TRUSTED_BASE = [
     "Lean 4.33 kernel; axioms subset of {propext, Classical.choice, Quot.sound}",
     "hand-written models LiquidVerif/Model/Lex.lean (pieces, assemble, matchesOf, _tokenize_template line by line) and Model/LexRender.lean (Parser._parse + the parse methods of content/comment/doc/inline-comment tags, render fold)",
-    "that the compiled regex of compile_liquid_rules finds, on a source assembled from well-formed pieces (srcWf), exactly one match per piece with the groups stated by matchesOf — not proved, measured by stream `match` on every case of every stream",
+    "that the hand-written string scanner `scan` (Model/LexScan.lean) equals `rules.finditer` of the compiled regex on strings — measured by stream `scan` on arbitrary (mostly malformed) strings under default, template-comment and custom delimiters. (That `scan (assemble d ps) = matchesOf d 0 ps` on well-formed piece lists is PROVED for the default delimiters with template comments off or on — scan_assemble_default — and additionally evaluated by the driver on every case, `scan_eq`; for other plain delimiter sets it is proved up to the per-piece hypothesis AllMarkupFound and evaluated likewise.)",
+    "the liquid tag's line scanner model Model/LiquidLines.lean (C20's, tied there by its own stream; here it drives the render level of every liquid piece)",
     "CPython str.lstrip()/rstrip()/isspace and regex \\s agree with the model's 29-code-point whitespace table (stream spaces, exhaustive over all code points)",
     "correspondence harness harness/props/c10.py + Driver/C10.lean; the Python assemble() is compared with the model's assemble on every case",
     "what an output statement / echo / assign / liquid tag prints is a parameter (Sem) of the render theorems; the driver instantiates it with literals and assigned variables only",
@@ -48,12 +53,13 @@ ASSUMPTIONS = [
     "Quantifier as in the property: sources assembled from text, output statements, raw, comment, doc, inline-comment and liquid tags (plus assign/echo as representatives of 'every tag kind'); block tags such as if/for are outside it (their blank-body suppression is a different rule)",
     "Text pieces contain no opening delimiter ({{, {%, and {# when template comments are on) and expressions do not contain their own closing delimiter (srcWf) — otherwise the fragment is markup, not text",
     "Block comments are balanced inside the piece list for the comment theorems (a comment never closed is a syntax error)",
-    "Delimiters: default and default + template_comments; custom delimiters are C11's quantifier (the model keeps Delims as a parameter)",
+    "Delimiters: default and default + template_comments are the property's quantifier; seven custom plain delimiter sets are exercised in streams delims and scan (the scanner assumes Delims.plain: no delimiter starts with whitespace, '-' or a word character)",
+    "`{#-#}` (shorthand comment, empty body, one hyphen) is outside the quantifier: the single hyphen is both the left and the right marker, so no piece list with one marker assembles to it; the observed behaviour (both sides stripped) is mirrored by the scanner and pinned by the scan stream",
 ]
 MANIFEST = {
-    "technique": "Lean 4 proof (induction over the piece list of a template, for all pieces, paddings, markers and delimiters) of a line-by-line model of _tokenize_template + parser/render of the anchored tags; differential correspondence at three levels (regex matches, tokens, rendered output), exhaustive over marker combinations x piece kinds x neighbours",
-    "text": "Theorems lex_refines_spec, nodes_split, strip_rules, strip_between, text_verbatim, whitespace_only_text, markup_item, raw_verbatim, comments_silent, render_strip_rules, render_raw_verbatim, render_comments_silent, wf_text_is_clean, tokens_start_in_source, lstrip_spec, rstrip_spec hold for every piece list with no bound on length, nesting depth of comments, padding or text; the model is tied to liquid/lex.py by comparing finditer matches, token lists (values and start offsets), parsed node lists and rendered output on every generated case.",
-    "note": "Trusted: Lean kernel (axioms propext/Classical.choice/Quot.sound only), the hand model, the harness, and the regex engine finding one match per well-formed piece (measured by the match stream, not proved). Three defects of the original tree were repaired on fix-C10 (endraw's right marker ignored; trailing newline of a template swallowed after a right-controlled tag; empty liquid tag consuming the following token); the model mirrors the repaired code.",
+    "technique": "Lean 4 proof (induction over the piece list of a template, for all pieces, paddings, markers and delimiters) of a line-by-line model of _tokenize_template + parser/render of the anchored tags; a deterministic string-level scanner for the rule alternation; differential correspondence at four levels (regex matches, tokens, parsed nodes, rendered output sync+async) and scanner-vs-regex on arbitrary strings, exhaustive over marker combinations x piece kinds x neighbours",
+    "text": "Theorems lex_refines_spec, nodes_split, strip_rules, strip_between, text_verbatim, whitespace_only_text, markup_item, raw_verbatim, comments_silent, render_strip_rules, render_raw_verbatim, render_comments_silent, wf_text_is_clean, tokens_start_in_source, liquid_inner_tokens_in_source, scan_text, scan_assemble_default, string_level_refines_spec, lstrip_spec, rstrip_spec hold for every piece list with no bound on length, nesting depth of comments, padding or text; the model is tied to liquid/lex.py by comparing finditer matches, token lists (values and start offsets), parsed node lists and rendered output on every generated case.",
+    "note": "Trusted: Lean kernel (axioms propext/Classical.choice/Quot.sound only), the hand model, the harness, and that the hand-written string scanner `scan` equals the compiled regex's finditer (measured on arbitrary strings by stream scan, not proved). The string-level statement (scanner on the assembled string = matchesOf, hence source string -> nodes = specification) is proved at full strength for the default delimiters with template comments off or on (scan_assemble_default, string_level_refines_spec); for other plain delimiter sets it is scan_assemble_partial (residual hypothesis: each markup piece alone is found), evaluated by the driver on every case. Three defects of the original tree were repaired on fix-C10 (endraw's right marker ignored; trailing newline of a template swallowed after a right-controlled tag; empty liquid tag consuming the following token); the model mirrors the repaired code.",
 }
 
 _ESC = re.compile("\x01(\\d+);")
@@ -74,8 +80,28 @@ DEFAULT = ["{%", "%}", "{{", "}}", "", ""]
 COMMENTS = ["{%", "%}", "{{", "}}", "{#", "#}"]
 
 
+def dl_of(d):
+    """delimiter set of a case: "default", "comments" (default + template_comments) or an explicit list of six strings"""
+    if isinstance(d, (list, tuple)):
+        return list(d)
+    return COMMENTS if d == "comments" else DEFAULT
+
+
 def delims(case):
-    return COMMENTS if case["d"] == "comments" else DEFAULT
+    return dl_of(case["d"])
+
+
+# custom delimiter sets for stream `delims`: non-colliding, none starts with whitespace, '-' or a word character
+# (Delims.plain); shorthand comments only as `{#` so that the liquid tag's line-comment marker stays `#`
+CUSTOM_DELIMS = [
+    ["<%", "%>", "<<", ">>", "", ""],
+    ["[%", "%]", "[[", "]]", "", ""],
+    ["{%", "%}", "${", "}$", "{#", "#}"],
+    ["<?", "?>", "<=", "=>", "", ""],
+    ["(%", "%)", "((", "))", "", ""],
+    ["<%%", "%%>", "<{{", "}}>", "", ""],
+    ["@|", "|@", "$|", "|$", "{#", "#}"],
+]
 
 
 # ----------------------------------------------------------------------------------------------
@@ -251,6 +277,8 @@ def starts_markup(d, t):
 
 def text_ok(d, s, nxt):
     """no opening delimiter begins inside the text (also not across the boundary to what follows)"""
+    if "{{" in s or "{%" in s or (s.endswith("{") and nxt[:1] in ("{", "%")):
+        return False  # `_tokenize_template` rejects content that starts with these two literally, whatever the delimiters
     return s != "" and not any(starts_markup(d, s[i:] + nxt) for i in range(len(s)))
 
 
@@ -473,9 +501,9 @@ def gen_markup(rng, d, names, depth=0):
 
 
 def gen_markup0(rng, d, names, depth=0):
-    dl = COMMENTS if d == "comments" else DEFAULT
+    dl = dl_of(d)
     kinds = ["output", "output", "assign", "echo", "inline", "liquid", "raw", "raw", "doc", "comment", "comment"]
-    if d == "comments":
+    if dl[4] != "":
         kinds += ["short", "short"]
     k = rng.choice(kinds)
     l, r = gen_flags(rng), gen_flags(rng)
@@ -552,7 +580,7 @@ def gen_text(rng):
 
 def gen_pieces(rng, d, n_items, names, depth=0, tail=""):
     """a well-formed piece list: markup items separated by optional text"""
-    dl = COMMENTS if d == "comments" else DEFAULT
+    dl = dl_of(d)
     items = []
     for _ in range(n_items):
         items.append(gen_markup(rng, d, names, depth))
@@ -577,6 +605,19 @@ def gen_pieces(rng, d, n_items, names, depth=0, tail=""):
     return ps
 
 
+def delims_cases(ctx):
+    """random piece lists under custom (plain, non-colliding) delimiter sets"""
+    rng = ctx.rng_for("delims")
+    out = []
+    for i in range(ctx.scale(1200, 15000)):
+        d = rng.choice(CUSTOM_DELIMS)
+        ps = gen_pieces(rng, d, rng.range(1, 5), [])
+        if not ps:
+            ps = [["text", "t"]]
+        out.append(mk_case(d, ps))
+    return out
+
+
 def random_cases(ctx):
     rng = ctx.rng_for("random")
     out = []
@@ -598,9 +639,16 @@ _ENVS: dict = {}
 def get_env(d):
     from liquid import Environment
 
-    if d not in _ENVS:
-        _ENVS[d] = Environment(template_comments=(d == "comments"))
-    return _ENVS[d]
+    key = tuple(d) if isinstance(d, (list, tuple)) else d
+    if key not in _ENVS:
+        if isinstance(d, (list, tuple)):
+            kw = dict(tag_start_string=d[0], tag_end_string=d[1], statement_start_string=d[2], statement_end_string=d[3])
+            if d[4]:
+                kw.update(template_comments=True, comment_start_string=d[4], comment_end_string=d[5])
+            _ENVS[key] = Environment(**kw)
+        else:
+            _ENVS[key] = Environment(template_comments=(d == "comments"))
+    return _ENVS[key]
 
 
 GROUPS = {
@@ -613,27 +661,40 @@ GROUPS = {
 }
 
 
-def impl_match(case):
+def match_obs(m):
+    """one regex match -> the groups `_tokenize_template` reads (same shape as Driver/C10.lean `matchJson`)"""
+    kind = m.lastgroup
+    o = {"kind": kind, "start": m.start(), "stop": m.end(), "value": m.group()}
+    for g, t in GROUPS.get(kind, ()):
+        v = m.group(g)
+        o[g] = bool(v) if t == "b" else (v if v is not None else "")
+    if kind == "output":
+        o["stmtStart"] = m.start("stmt")
+    if kind == "TAG":
+        o["nameStart"] = m.start("name")
+        # the tokenizer reads start("expr") only when the group is non-empty
+        o["exprStart"] = m.start("expr") if m.group("expr") else None
+    return o
+
+
+_RULES: dict = {}
+
+
+def get_rules(d):
     from liquid.lex import compile_liquid_rules
 
+    key = tuple(d)
+    if key not in _RULES:
+        _RULES[key] = compile_liquid_rules(*d)
+    return _RULES[key]
+
+
+def impl_match(case):
     d = delims(case)
     src = assemble(d, case["ps"])
-    rules = compile_liquid_rules(*d)
-    ms = []
-    for m in rules.finditer(src):
-        kind = m.lastgroup
-        o = {"kind": kind, "start": m.start(), "stop": m.end(), "value": m.group()}
-        for g, t in GROUPS.get(kind, ()):
-            v = m.group(g)
-            o[g] = bool(v) if t == "b" else (v if v is not None else "")
-        if kind == "output":
-            o["stmtStart"] = m.start("stmt")
-        if kind == "TAG":
-            o["nameStart"] = m.start("name")
-            # the tokenizer reads start("expr") only when the group is non-empty
-            o["exprStart"] = m.start("expr") if m.group("expr") else None
-        ms.append(o)
-    return {"src": src, "wf": True, "matches": ms}
+    ms = [match_obs(m) for m in get_rules(d).finditer(src)]
+    # scan_eq: the model's string-level scanner must find the model's piece matches (computed by the driver)
+    return {"src": src, "wf": True, "scan_eq": True, "matches": ms}
 
 
 def impl_tokens(case):
@@ -651,13 +712,41 @@ def impl_tokens(case):
     return {"tokens": toks}
 
 
+def _run_coro(make):
+    """run a coroutine that never really suspends (no loaders involved) without an event loop; fall back to one"""
+    coro = make()
+    try:
+        coro.send(None)
+    except StopIteration as stop:
+        return stop.value
+    coro.close()
+    import asyncio
+
+    loop = asyncio.new_event_loop()
+    try:
+        return loop.run_until_complete(make())
+    finally:
+        loop.close()
+
+
 def impl_render(case):
+    """render synchronously and asynchronously; one observation when they agree"""
     env = get_env(case["d"])
     src = assemble(delims(case), case["ps"])
     try:
-        return {"out": env.from_string(src).render()}
+        t = env.from_string(src)
+        sync = {"out": t.render()}
     except Exception as e:
-        return {"err": type(e).__name__}
+        sync = {"err": type(e).__name__}
+        t = None
+    try:
+        t2 = env.from_string(src)
+        asyn = {"out": _run_coro(lambda: t2.render_async())}
+    except Exception as e:
+        asyn = {"err": type(e).__name__}
+    if asyn != sync:
+        return dict(sync, async_differs=asyn)
+    return sync
 
 
 def impl_nodes(case):
@@ -697,7 +786,7 @@ def facing_whitespace(ps):
 
 def case_tags(case):
     ps = case["ps"]
-    t = {case["d"]}
+    t = {case["d"] if isinstance(case["d"], str) else "delims=" + "".join(case["d"][:2])}
     for i, p in enumerate(ps):
         k = kind_of(p)
         t.add("kind=" + k)
@@ -790,6 +879,88 @@ class StripStream(Stream):
         return obs[0] != case["s"] or obs[1] != case["s"]
 
 
+SCAN_ATOMS = ["{%", "%}", "{{", "}}", "-", " ", "raw", "endraw", "x", "#"]
+SCAN_ATOMS_C = ["{#", "#}", "{%", "%}", "-", " ", "c", "{{", "}}", "\n"]
+SCAN_RANDOM_ATOMS = [
+    "{%", "%}", "{{", "}}", "{#", "#}", "-", "-", " ", " ", "\n", "\t", "\r\n", "\u00a0", "\u2028", "\x0c", "raw", "endraw", "doc", "enddoc",
+    "comment", "endcomment", "#", "a", "x1", "_", "if x", "'s'", "{", "}", "%", "liquid", "echo 1", "=", "|", "--", "{%-", "-%}",
+    "{{-", "-}}", "{#-", "-#}", "{% raw %}", "{% endraw %}", "{%- endraw -%}", "{%raw%}", "{%-\nraw\t-%}", "{% doc %}", "{% enddoc %}",
+    "{% enddoc -%}", "{{ x }}", "{{- x -}}", "{{x}}", "{% if a %}", "{%- # c -%}", "{% #c%}", "{# c #}", "{#- c -#}", "{% comment %}",
+    "{% endcomment %}", "{% rawx %}", "{% raw x %}", "{% end raw %}", "{{ 'a' | f: 1 }}", "{%%}", "{{}}", "{##}", "{%-%}", "{{-}}", "{#-#}",
+]
+
+
+class ScanStream(Stream):
+    """ARBITRARY strings (mostly not assembled from pieces, mostly malformed): `rules.finditer` of the compiled
+    regex against the model's hand-written string scanner `scan` (Model/LexScan.lean) — kind, span, every group the
+    tokenizer reads. This is where the regex engine is trusted and measured."""
+
+    name = "scan"
+
+    def cases(self, ctx):
+        import itertools
+
+        out = []
+        L = ctx.scale(3, 4)
+        for d, atoms in (("default", SCAN_ATOMS), ("comments", SCAN_ATOMS_C)):
+            for n in range(0, L + 1):
+                for tup in itertools.product(atoms, repeat=n):
+                    out.append({"d": d, "s": "".join(tup)})
+        rng = ctx.rng_for("scan")
+        for _ in range(ctx.scale(4000, 60000)):
+            d = "comments" if rng.chance(45) else "default"
+            n = rng.range(1, 12)
+            src = "".join(rng.choice(SCAN_RANDOM_ATOMS) for _ in range(n))
+            if rng.chance(25):
+                # the same string rewritten for a custom delimiter set (what is left of `{{` / `{%` is plain text there)
+                d = rng.choice(CUSTOM_DELIMS)
+                marks = ["{%", "%}", "{{", "}}", "{#", "#}"]
+                for i, m in enumerate(marks):
+                    src = src.replace(m, chr(0xE000 + i))
+                for i, m in enumerate(marks):
+                    src = src.replace(chr(0xE000 + i), d[i] if d[i] else m)
+            out.append({"d": d, "s": src})
+        return out
+
+    def impl(self, case):
+        from liquid.exceptions import LiquidSyntaxError
+
+        d = delims(case)
+        out = {"matches": [match_obs(m) for m in get_rules(d).finditer(case["s"])]}
+        # the whole lexer on the same arbitrary string: tokens (kind, value, start) or the end-of-file error
+        try:
+            out["tokens"] = {"tokens": [[t.kind, t.value, t.start_index] for t in get_env(case["d"]).tokenizer()(case["s"])]}
+        except LiquidSyntaxError as e:
+            first = str(e).split("\n")[0]
+            out["tokens"] = {"err": "eof-in-output" if "'}}'" in first else "eof-in-tag" if "'%}'" in first else "syntax"}
+        return out
+
+    def line(self, case):
+        return ["c10_scan", delims(case), case["s"]]
+
+    def canon_model(self, case, mobs):
+        mobs = unesc(mobs)
+        if isinstance(mobs, dict) and "tokens" in mobs:
+            return {"matches": canon_level("match", {"matches": mobs["matches"]})["matches"], "tokens": canon_level("tokens", mobs["tokens"])}
+        return mobs
+
+    def oracle(self, case, obs):
+        # the matches of the alternation tile the string (the content rule matches anything non-empty)
+        if "".join(m["value"] for m in obs["matches"]) != case["s"]:
+            return ("scan|matches-do-not-tile", "finditer skipped characters")
+        return None
+
+    def nontrivial(self, case, obs):
+        return any(m["kind"] != "content" for m in obs["matches"]) or len(obs["matches"]) >= 2
+
+    def tags(self, case, obs):
+        t = {case["d"] if isinstance(case["d"], str) else "delims=" + "".join(case["d"][:2])}
+        for m in obs["matches"]:
+            t.add("kind=" + m["kind"])
+        t.add("matches<=2" if len(obs["matches"]) <= 2 else "matches<=6" if len(obs["matches"]) <= 6 else "matches>6")
+        return sorted(t)
+
+
 LEVELS = ("match", "tokens", "nodes", "render")
 IMPLS = {"match": impl_match, "tokens": impl_tokens, "nodes": impl_nodes, "render": impl_render}
 
@@ -808,6 +979,8 @@ def oracle_level(level, case, obs):
     """the property stated directly on one level of observation"""
     ps = case["ps"]
     if level == "render":
+        if "async_differs" in obs:
+            return ("render|async-differs", f"render() gave {({k: v for k, v in obs.items() if k != 'async_differs'})!r}, render_async() gave {obs['async_differs']!r}")
         if "err" in obs:
             kinds = ",".join(sorted({kind_of(p) for p in ps if p[0] != "text"}))
             return (f"render|raises-{obs['err']}|kinds={kinds}", f"rendering a template of text/output/raw/comment/doc/liquid pieces raised {obs['err']}")
@@ -854,7 +1027,7 @@ class _PieceStream(Stream):
         self.exhaustive = family in ("triple", "pair")
 
     def cases(self, ctx):
-        return {"triple": triple_cases, "pair": pair_cases, "random": random_cases}[self.family](ctx)
+        return {"triple": triple_cases, "pair": pair_cases, "random": random_cases, "delims": delims_cases}[self.family](ctx)
 
     def impl(self, case):
         out = {}
@@ -946,7 +1119,7 @@ class _PieceStream(Stream):
 
 
 def streams(ctx):
-    out = [SpacesStream(), StripStream()]
-    for fam in ("triple", "pair", "random"):
+    out = [SpacesStream(), StripStream(), ScanStream()]
+    for fam in ("triple", "pair", "random", "delims"):
         out.append(_PieceStream(fam))
     return out
